@@ -52,6 +52,24 @@ class _Fut(object):
         return self.val
 
 
+class FalsyCallable(object):
+    """a component that is a callable OBJECT whose truth value is False (an empty container that can be called):
+    components are identified by identity / hash, never by truthiness"""
+
+    def __init__(self, fn):
+        self.fn = fn
+        self.__name__ = fn.__name__
+        self.__qualname__ = fn.__qualname__
+        self.__module__ = fn.__module__
+        self.__doc__ = None
+
+    def __call__(self, *a, **k):
+        return self.fn(*a, **k)
+
+    def __len__(self):
+        return 0
+
+
 class Crash(Exception):
     def __init__(self, n):
         super(Crash, self).__init__("crash%d" % n)
@@ -214,6 +232,8 @@ class World(object):
             sp = sps[x % len(sps)] if sps else "v"
             if sp == "v":
                 return (x * 7 + cid) % 1000
+            if sp == "z":
+                return 0           # a falsy value that is a value (only None means "no result")
             if sp == "n":
                 return None
             raise_exc(sp[2:], cid)
@@ -232,6 +252,8 @@ class World(object):
                 return outcome(list(args))
         fn.__name__ = "c%d_%s" % (cid, tag)
         fn.__qualname__ = fn.__name__
+        if s.get("falsy") and kind in ("plain", "plugin", "rule"):
+            fn = FalsyCallable(fn)
         kw = {}
         if optional:
             kw["optional"] = optional
@@ -533,7 +555,7 @@ def gen_spec(rng, n, fault_rate=0.25, with_points=True, with_ignore=False, seede
             # outcome per element of a multi-output value: mostly values, some None, and faults of every kind (more of them
             # when the world is generated with dense fault injection)
             pf = max(0.2, min(0.5, fault_rate))
-            s["elems"] = [("f:" + rng.choice(EXCS)) if rng.random() < pf else rng.choice(["v", "v", "v", "n"])
+            s["elems"] = [("f:" + rng.choice(EXCS)) if rng.random() < pf else rng.choice(["v", "v", "v", "n", "z"])
                           for _ in range(rng.randint(0, 4))]
         # body
         ndeps = sum(1 if it[0] == "o" else len(it[1]) for it in s["items"]) + len(s["optional"])
@@ -551,6 +573,8 @@ def gen_spec(rng, n, fault_rate=0.25, with_points=True, with_ignore=False, seede
             s["body"] = rng.choice(["v", "v", "v", "v", "n"])
         if kind in ("datasource", "plain", "plugin") and not s.get("multi") and s["body"][0] in "vi" and rng.random() < 0.15:
             s["tuple"] = rng.choice([1, 2, 3])
+        if kind in ("plain", "plugin", "rule") and rng.random() < 0.1:
+            s["falsy"] = True
         spec.append(s)
     if with_ignore:
         for cid in range(n):
